@@ -6,6 +6,26 @@ props = [json.loads(l) for l in open(os.path.join(here, 'properties.jsonl'))]
 
 MC = "model_checking"
 checks = {
+ "C02": dict(
+    technique="bounded-exhaustive enumeration of multi-document reference graphs (topology x placement x spelling x keyword position x entry element x chains) executed by the real ExpandSpec under every map iteration order within a deviation bound; bisimulation against a reference model of $ref semantics",
+    text="Every reference graph of the bounded alphabet (all digraphs on <= 2 nodes against every dimension, 3 nodes against placements; thorough: 3 nodes against every dimension) is expanded by the real code under all map orders within 1 deviation, and every root element of the output must be bisimilar (coinductive comparison of the possibly infinite unfoldings) to the same element of the input in a universe where every wrong-document resolution lands on a decoy. This decides meaning preservation for the whole bounded space, not for fixtures.",
+    note="The reference model (h/model.go: RFC 3986 via net/url, RFC 6901, kinds and child positions, bisimulation) is trusted; inputs are well-formed graphs without ids and $ref siblings. Acyclic cases are replayed on the un-instrumented build with identical output.",
+    ref="3 C02"),
+ "C03": dict(
+    technique="same explored executions as C02 (graph alphabet x map orders); oracle = cycle membership of every remaining $ref in the location graph of the input, determinism of acyclic outputs across all explored orders",
+    text="For every explored execution each $ref left in the output is resolved from the root location and must land on a location that lies on a reference cycle of the input universe; acyclic inputs must come out $ref-free and byte-identical under every explored map order; the spelling of cut-points must follow the AbsoluteCircularRef option.",
+    note="Known finding: cut-points into documents outside the root's directory subtree stay absolute file:// URLs (the existing suite asserts that output).",
+    ref="3 C03"),
+ "C04": dict(
+    technique="exhaustive enumeration of ALL digraphs (well-formed or not) x ids x broken targets x option combinations x every entry point, with a deterministic step budget derived from the acyclic unfolding (reference model) and worker-process isolation",
+    text="All digraphs on <= 2 nodes and all 3-node digraphs up to isomorphism, with ids, bare-$ref loops, unresolvable targets of every kind, pure reference cycles of parameters/responses/path items and the scaling families ring/ladder/diamond/complete are pushed through every entry point; a call must return within 1000 x unfolding + 5000 instrumented steps without panicking; a case that kills the process is attributed to the announced case.",
+    note="Work is counted in function entries of the instrumented package (deterministic, no wall clock). Known finding: a relative directory id on a cycle recurses forever.",
+    ref="3 C04"),
+ "C08": dict(
+    technique="fault enumeration inside the graph exploration: every single (thorough: pair of) reference made unresolvable in each of 7 ways x every subset (<= 2) of documents refused by the loader x ContinueOnError on/off x map orders; oracle derived from the reference model (reachability of broken references)",
+    text="For every graph on <= 2 nodes, every reference (schema edge at any keyword, entry reference, chain hop) is broken in every way, and every subset of up to two requested documents is refused by the loader; strict mode must report an error exactly when a reference it has to follow is unresolvable in the reference model; continue mode must return nil, keep unresolvable schema $refs verbatim and fully expand independent elements.",
+    note="Only schema $refs are required to stay verbatim in continue mode (statement wording); null targets are left to C04.",
+    ref="3 C08"),
  "C06": dict(
     technique="stateless exploration of every map iteration order (deviation-bounded DFS over rewritten map ranges) x explicit-state BFS over builder-API histories and decoded documents, with validity / duplicate-member / reference-model / order oracles",
     text="On a build where every map range of the package is an explorer-owned choice point, each value (all documents of cost <= d, the full product of x-order values on 2 and 3 properties, every distinct value reachable by <= k builder calls with hostile names) is encoded under every map order within 2 deviations; every output must be an error or valid JSON without repeated members, byte-identical across orders, equal to the reference model of the calls, with properties ordered by (x-order, name). Determinism is therefore enumerated, not hoped for across runs.",
